@@ -296,6 +296,39 @@ pub fn register(l: &mut Vec<Obl>) {
     oklab_std!(l, "rec2020", Rec2020);
     oklab_std!(l, "displayp3", DisplayP3);
     legacy(l);
+    // white points given at run time (adaptation_matrix(Some(in), Some(out))), with luminance factors other than 1: a measured
+    // "white" of any scale stands for its chromaticity (both are normalised to Y = 1)
+    macro_rules! adapt_dynamic {
+        ($mk:literal, $M:ty) => {{
+            obl!(l; concat!("c14_adapt_", $mk, "_dynamic_white_points_any_scale"), "C14", Tier::Quick,
+                concat!("adaptation_matrix::<_, _, _, ", stringify!($M), ">(Some(w_in), Some(w_out)) with w_in = 0.8 x (the XYZ of illuminant A) and w_out = 1.7 x (the XYZ of D50): maps the normalised input white onto the normalised output white (1e-6), is the identity when both are the same scaled white (1e-6), and the matrix of the opposite direction takes every colour back (1e-6) - every XYZ colour in [0,1.2]^3"),
+                ["chromatic_adaptation::adaptation_matrix (Some, Some)", "Xyz::normalize", "chromatic_adaptation::diagonal_matrix", "Matrix3::then", "Matrix3::convert"],
+                [var("x", 0.0, 1.2), var("y", 0.0, 1.2), var("z", 0.0, 1.2)];
+                |v| {
+                    use palette::chromatic_adaptation::adaptation_matrix;
+                    use palette::convert::Convert;
+                    let mut r = Res::<B>::new();
+                    let a: Xyz<wp::Any, T> = <wp::A as WhitePoint<T>>::get_xyz();
+                    let d: Xyz<wp::Any, T> = <wp::D50 as WhitePoint<T>>::get_xyz();
+                    let w_in: Xyz<wp::D65, T> = Xyz::new(a.x * T::k(0.8), a.y * T::k(0.8), a.z * T::k(0.8));
+                    let w_out: Xyz<wp::D65, T> = Xyz::new(d.x * T::k(1.7), d.y * T::k(1.7), d.z * T::k(1.7));
+                    let there = adaptation_matrix::<T, wp::D65, wp::D65, $M>(Some(w_in), Some(w_out));
+                    let back = adaptation_matrix::<T, wp::D65, wp::D65, $M>(Some(w_out), Some(w_in));
+                    let same = adaptation_matrix::<T, wp::D65, wp::D65, $M>(Some(w_out), Some(w_out));
+                    let got: Xyz<wp::D65, T> = there.convert(Xyz::new(a.x, a.y, a.z));
+                    r.goal("white_to_white", got.x.close(d.x, 1e-6) & got.y.close(d.y, 1e-6) & got.z.close(d.z, 1e-6));
+                    let c: Xyz<wp::D65, T> = Xyz::new(v[0], v[1], v[2]);
+                    let s: Xyz<wp::D65, T> = same.convert(c);
+                    r.goal("identity_between_equal_whites", s.x.close(v[0], 1e-6) & s.y.close(v[1], 1e-6) & s.z.close(v[2], 1e-6));
+                    let rt: Xyz<wp::D65, T> = back.convert(there.convert(c));
+                    r.goal("there_and_back", rt.x.close(v[0], 1e-6) & rt.y.close(v[1], 1e-6) & rt.z.close(v[2], 1e-6));
+                    r
+                });
+        }};
+    }
+    adapt_dynamic!("bradford", Bradford);
+    adapt_dynamic!("vonkries", VonKries);
+    adapt_dynamic!("xyzscaling", UnitMatrix);
     adapt_methods!(l, Tier::Quick, "d65", wp::D65, "d50", wp::D50);
     adapt_methods!(l, Tier::Quick, "d50", wp::D50, "d65", wp::D65);
     adapt_methods!(l, Tier::Quick, "a", wp::A, "d65", wp::D65);
